@@ -2060,6 +2060,12 @@ func (app *App) findBestStreamFrom(node *mysql.Node, clusterState map[string]*no
 			}
 		}
 
+		// stream_from may name a host that is not registered (any more): try its own upstream
+		if candidateState == nil {
+			loopDetector = append(loopDetector, streamFrom)
+			continue
+		}
+
 		hasReasonableLag := candidateState.IsMaster || (candidateState.SlaveState != nil &&
 			candidateState.SlaveState.ReplicationState == mysql.ReplicationRunning &&
 			candidateState.SlaveState.ReplicationLag != nil &&
